@@ -690,7 +690,7 @@ int cgio_compute_data_size (const char *data_type,
     else {
         *count = 0;
     }
-    switch (*data_type) {
+    switch (toupper((unsigned char)*data_type)) {
         case 'B':
         case 'C':
             return CG_ERROR;
